@@ -265,6 +265,9 @@ impl Model {
         if matched.is_none() && decs.iter().any(|d| *d == Dec::Ambiguous) {
             // follow the implementation
             stats.ambiguous += 1;
+            if std::env::var("VREF_DEBUG_AMBIG").is_ok() {
+                eprintln!("ambiguous: even={e:?} odd={o:?} prev={:?} cands={cands:?} decs={decs:?} obs_pos={obs_pos:?} cleared={obs_cleared} range={max_range} rx={receiver:?}", rec.position);
+            }
             if let Some(op) = obs_pos {
                 Self::publish(rec, op, obs.and_then(|r| r.distance).unwrap_or(f64::NAN), duplicate);
             } else {
